@@ -71,20 +71,87 @@ var ruleUnmarshalID = &Rule{
 			}
 			return fmt.Sprintf("%T", v)
 		}
+		// helpers of the package on the way to the parser: functions that
+		// (transitively) call parser.Parse; they are held to the same rule
+		reach := map[*ssa.Function]bool{}
+		for changed := true; changed; {
+			changed = false
+			for g := range p.AllFns {
+				if fnPkgPath(g) != pkgPath || g.Blocks == nil || reach[g] || fns[g] {
+					continue
+				}
+				for _, c := range p.allCalls(g) {
+					if sc := c.Call.StaticCallee(); sc == parse || reach[sc] {
+						reach[g] = true
+						changed = true
+						break
+					}
+				}
+			}
+		}
+		textArgs := func(c *ssa.Call) []ssa.Value {
+			var as []ssa.Value
+			for _, a := range c.Call.Args {
+				switch t := a.Type().Underlying().(type) {
+				case *types.Basic:
+					if t.Info()&types.IsString != 0 {
+						as = append(as, a)
+					}
+				case *types.Slice, *types.Interface:
+					as = append(as, a)
+				}
+			}
+			return as
+		}
+		helperBad := map[*ssa.Function]string{}
+		var helperWhy func(g *ssa.Function, depth int) string
+		helperWhy = func(g *ssa.Function, depth int) string {
+			if w, ok := helperBad[g]; ok {
+				return w
+			}
+			helperBad[g] = ""
+			if depth > 4 {
+				return ""
+			}
+			for _, c := range p.allCalls(g) {
+				sc := c.Call.StaticCallee()
+				if sc != parse && !reach[sc] {
+					continue
+				}
+				for _, a := range textArgs(c) {
+					if why := pure(g, a, 0); why != "" {
+						helperBad[g] = "in " + fnName(g) + " the text handed to " + calleeName(&c.Call) + " is " + why
+						return helperBad[g]
+					}
+				}
+				if sc != parse {
+					if why := helperWhy(sc, depth+1); why != "" {
+						helperBad[g] = why
+						return why
+					}
+				}
+			}
+			return ""
+		}
 		n := 0
 		for fn := range fns {
 			bad := ""
 			calls := 0
 			for _, c := range p.allCalls(fn) {
 				sc := c.Call.StaticCallee()
-				if sc != parse && !fns[sc] {
+				if sc != parse && !fns[sc] && !reach[sc] {
 					continue
 				}
 				calls++
-				// the text argument: the last argument
-				arg := c.Call.Args[len(c.Call.Args)-1]
-				if why := pure(fn, arg, 0); why != "" && bad == "" {
-					bad = "the text handed to " + calleeName(&c.Call) + " is " + why + ", not the input itself"
+				for _, arg := range textArgs(c) {
+					if why := pure(fn, arg, 0); why != "" && bad == "" {
+						bad = "the text handed to " + calleeName(&c.Call) + " is " + why + ", not the input itself"
+					}
+				}
+				if reach[sc] && bad == "" {
+					if why := helperWhy(sc, 0); why != "" {
+						bad = why + ", not the input itself"
+					}
 				}
 			}
 			n += calls
@@ -140,7 +207,7 @@ var ruleFmtConst = &Rule{
 			}
 		}
 		out.Counts["format_calls_in_the_printer"] = n
-		out.Floors["format_calls_in_the_printer"] = 5
+		out.Floors["format_calls_in_the_printer"] = 2
 		if len(out.Obs) == 0 {
 			out.ok("format strings are constants", "path/ast", "", fmt.Sprintf("%d format calls, each with a constant format", n))
 		}
@@ -241,7 +308,7 @@ var ruleNextBlind = &Rule{
 			}
 		}
 		out.Counts["tests_of_the_next_node"] = n
-		out.Floors["tests_of_the_next_node"] = 5
+		out.Floors["tests_of_the_next_node"] = 2
 		if len(out.Obs) == 0 {
 			out.ok("steps do not look at what follows", "path/exec", "", fmt.Sprintf("%d nil tests of node.Next(), each part of an existence shortcut", n))
 		}
